@@ -1,10 +1,14 @@
 (* C05 — Adj, AdjT, Retr, +, Jinvp, Jr satisfy their defining tangent-space identities.
-   Statements only (over R); proofs in Proofs/LieTangent.v.  The SE3 / Sim3 versions of the Adj
-   identities, Jinvp and the right-Jacobian derivative statement are not proved (tie only). *)
+   Statements only (over R); proofs in Proofs/LieTangent.v, LieTangent2.v .. LieTangent5.v.
+   Still tie-only: the SE3 / Sim3 Adj identities on the Taylor branches of the translation block (they hold
+   only approximately there; the exact defect of SE3 is C05_adj_identity_SE3_taylor_partial), Jinvp as the
+   derivative of Log(Exp(tau) @ X) (only "Jl(Log X) Jinvp(X,p) = p" is proved, not for Sim3 whose Jl / Jl_inv
+   are truncated series), Frechet (o(|d|)) form of the right-Jacobian statement (the directional form is proved). *)
 From Coq Require Import Reals List.
 Import ListNotations.
 From PV Require Import Base.Num Model.LieGroup Model.LieExp Model.LieLog Model.LieJac Model.LieTangent
-  Proofs.LieGroup Proofs.LieExp Proofs.LieLog Proofs.LieTangent.
+  Proofs.LieGroup Proofs.LieExp Proofs.LieLog Proofs.LieTangent
+  Proofs.LieTangent2 Proofs.LieTangent3 Proofs.LieTangent4.
 Local Open Scope R_scope.
 #[local] Remove Hints NumQ NumZ : typeclass_instances.
 
@@ -44,6 +48,94 @@ Theorem C05_Jr_is_Jl_neg_partial : forall (eps : R) (x : vec3R), 0 <= eps -> eps
   so3_Jr eps (v3_l x) = m3rows (so3_Jl eps (vneg x)).
 Proof. exact Jr_is_Jl_neg. Qed.
 
+(* ---- SE3: X @ Exp(a) = Exp(Adj(X,a)) @ X and Exp(a) @ X = X @ Exp(AdjT(X,a)) for every unit-rotation X and every
+   twist a = (tau, phi) on the closed-form branch of Jl (eps < |phi|) or with phi = 0 (pure translation) *)
+Theorem C05_adj_identity_SE3 : forall (eps : R) (X : se3R) (a : vec3R * vec3R), unitq (snd X) -> 0 <= eps ->
+  eps < vnorm (snd a) \/ snd a = vzero ->
+  SE3_mul X (se3_exp eps a) = SE3_mul (se3_exp eps (SE3_AdjXa X a)) X.
+Proof. exact adj_identity_SE3_gen. Qed.
+Theorem C05_adjT_identity_SE3 : forall (eps : R) (X : se3R) (a : vec3R * vec3R), unitq (snd X) -> 0 <= eps ->
+  eps < vnorm (snd a) \/ snd a = vzero ->
+  SE3_mul (se3_exp eps a) X = SE3_mul X (se3_exp eps (SE3_AdjTXa X a)).
+Proof. exact adjT_identity_SE3_gen. Qed.
+(* Taylor branch (0 < |phi| <= eps): the rotation parts agree exactly, the translation parts differ by the explicit
+   defect  s^3 (s - 128)/737280 (psi x t) + s^2 (s^2 - 160 s + 10240)/7372800 (psi x (psi x t)),
+   s = |phi|^2, psi = R phi, t = translation of X  (order |phi|^6 |t|; missing: the exact identity, which is false there) *)
+Theorem C05_adj_identity_SE3_taylor_partial : forall (eps : R) (X : se3R) (a : vec3R * vec3R),
+  unitq (snd X) -> vnorm (snd a) <= eps ->
+  snd (SE3_mul X (se3_exp eps a)) = snd (SE3_mul (se3_exp eps (SE3_AdjXa X a)) X) /\
+  fst (SE3_mul (se3_exp eps (SE3_AdjXa X a)) X) =
+    vadd (fst (SE3_mul X (se3_exp eps a)))
+         (let psi := SO3_AdjXa (snd X) (snd a) in let t := fst X in let s := vdot psi psi in
+          vadd (vscale (s * s * s * (s - 128) / 737280) (vcross psi t))
+               (vscale (s * s * (s * s - 160 * s + 10240) / 7372800) (vcross psi (vcross psi t)))).
+Proof. exact adj_identity_SE3_taylor. Qed.
+
+(* ---- Sim3: the same two identities for a = (tau, phi, sigma) with (eps < |phi| or phi = 0) and (eps < |sigma| or
+   sigma = 0): the closed-form regime of rxso3_Ws and its exact degenerate regimes; [sim3_arg] only regroups the
+   triple (tau, phi, sigma) into the argument shape (tau, (phi, sigma)) of sim3_exp *)
+Theorem C05_adj_identity_Sim3 : forall (eps : R) (X : sim3R) (tau phi : vec3R) (sg : R), unitq (fst (snd X)) -> 0 <= eps ->
+  eps < vnorm phi \/ phi = vzero -> eps < Rabs sg \/ sg = 0 ->
+  Sim3_mul X (sim3_exp eps (tau, (phi, sg))) =
+  Sim3_mul (sim3_exp eps (let '(tau', phi', sg') := Sim3_AdjXa X (tau, phi, sg) in (tau', (phi', sg')))) X.
+Proof.
+  intros eps X tau phi sg Hu He Hb Hs. rewrite (adj_identity_Sim3_gen eps X tau phi sg Hu He Hb Hs).
+  unfold sim3_arg. now destruct (Sim3_AdjXa X (tau, phi, sg)) as [[? ?] ?].
+Qed.
+Theorem C05_adjT_identity_Sim3 : forall (eps : R) (X : sim3R) (tau phi : vec3R) (sg : R),
+  unitq (fst (snd X)) -> snd (snd X) <> 0 -> 0 <= eps ->
+  eps < vnorm phi \/ phi = vzero -> eps < Rabs sg \/ sg = 0 ->
+  Sim3_mul (sim3_exp eps (tau, (phi, sg))) X =
+  Sim3_mul X (sim3_exp eps (let '(tau', phi', sg') := Sim3_AdjTXa X (tau, phi, sg) in (tau', (phi', sg')))).
+Proof.
+  intros eps X tau phi sg Hu Hn He Hb Hs. rewrite (adjT_identity_Sim3_gen eps X tau phi sg Hu Hn He Hb Hs).
+  unfold sim3_arg. now destruct (Sim3_AdjTXa X (tau, phi, sg)) as [[? ?] ?].
+Qed.
+
+(* ---- Exp(-a) = Inv(Exp(a)): rxso3 in every regime; se3 and sim3 on the closed-form / exact degenerate regimes *)
+Theorem C05_exp_neg_is_inverse_rxso3 : forall (eps : R) (phi : vec3R) (sg : R),
+  rxso3_exp eps (vneg phi, - sg) = RxSO3_inv (rxso3_exp eps (phi, sg)).
+Proof. exact rxso3_exp_neg. Qed.
+Theorem C05_exp_neg_is_inverse_se3 : forall (eps : R) (tau phi : vec3R), 0 <= eps -> eps < vnorm phi \/ phi = vzero ->
+  se3_exp eps (vneg tau, vneg phi) = SE3_inv (se3_exp eps (tau, phi)).
+Proof. exact se3_exp_neg_gen. Qed.
+Theorem C05_exp_neg_is_inverse_sim3 : forall (eps : R) (tau phi : vec3R) (sg : R), 0 <= eps ->
+  eps < vnorm phi \/ phi = vzero -> eps < Rabs sg \/ sg = 0 ->
+  sim3_exp eps (vneg tau, (vneg phi, - sg)) = Sim3_inv (sim3_exp eps (tau, (phi, sg))).
+Proof. exact sim3_exp_neg_gen. Qed.
+
+(* ---- Jr on the small-angle branch is the identity matrix (as coded: where(theta > eps, ., I)); it equals Jl(-x)
+   there only at x = 0: the clause "Jr(x) = Jl(-x) for every x" is false of the code for 0 < |x| <= eps
+   (deviation of order |x| <= eps, harmless numerically) *)
+Theorem C05_Jr_small_is_identity : forall (eps : R) (x : vec3R), vnorm x <= eps -> so3_Jr eps (v3_l x) = lid 3.
+Proof. exact Jr_small. Qed.
+Theorem C05_Jr_is_Jl_neg_everywhere_refuted : forall eps : R, 0 < eps -> eps <= 1 ->
+  exists x : vec3R, vnorm x <= eps /\ so3_Jr eps (v3_l x) <> m3rows (so3_Jl eps (vneg x)).
+Proof. exact Jr_is_Jl_neg_small_refuted. Qed.
+
+(* ---- Jinvp(X, p) = Jl_inv(Log X) p (as coded), and it is the inverse left Jacobian at Log X applied to p:
+   Jl(Log X) Jinvp(X, p) = p, for SO3, SE3, RxSO3 whenever the rotation angle theta of Log X satisfies
+   eps < theta < 2 pi (closed-form branches of Jl and Jl_inv; Jl is singular at 2 pi).  Sim3: Jl / Jl_inv are
+   truncated series (documented), not proved. *)
+Theorem C05_jinvp_as_coded : forall (eps : R) g X p, jinvp eps g X p = lmv (Jl_invM eps g (log_l eps g X)) p.
+Proof. exact jinvp_def. Qed.
+Theorem C05_Jl_Jl_inv_so3 : forall (eps : R) (x : vec3R), 0 <= eps -> eps < vnorm x -> vnorm x < 2 * PI ->
+  mmul3 (so3_Jl eps x) (so3_Jl_inv eps x) = mid3.
+Proof. exact so3_Jl_Jl_inv. Qed.
+Theorem C05_jinvp_inverts_Jl_SO3 : forall (eps : R) (X p : list R), 0 <= eps -> length p = 3%nat ->
+  eps < vnorm (SO3_log eps (l_q X)) -> vnorm (SO3_log eps (l_q X)) < 2 * PI ->
+  lmv (JlM eps 0 (log_l eps 0 X)) (jinvp eps 0 X p) = p.
+Proof. exact jinvp_SO3. Qed.
+Theorem C05_jinvp_inverts_Jl_SE3 : forall (eps : R) (X p : list R), 0 <= eps -> length p = 6%nat ->
+  eps < vnorm (SO3_log eps (snd (l_SE3 X))) -> vnorm (SO3_log eps (snd (l_SE3 X))) < 2 * PI ->
+  lmv (JlM eps 1 (log_l eps 1 X)) (jinvp eps 1 X p) = p.
+Proof. exact jinvp_SE3. Qed.
+Theorem C05_jinvp_inverts_Jl_RxSO3 : forall (eps : R) (X p : list R), 0 <= eps -> length p = 4%nat ->
+  eps < vnorm (SO3_log eps (fst (l_RxSO3 X))) -> vnorm (SO3_log eps (fst (l_RxSO3 X))) < 2 * PI ->
+  lmv (JlM eps 2 (log_l eps 2 X)) (jinvp eps 2 X p) = p.
+Proof. exact jinvp_RxSO3. Qed.
+
 Print Assumptions C05_adj_identity_SO3. Print Assumptions C05_adjT_identity_SO3. Print Assumptions C05_adj_identity_RxSO3.
 Print Assumptions C05_adjT_identity_RxSO3. Print Assumptions C05_retr_is_exp_mul. Print Assumptions C05_add_group_ignores_tail.
 Print Assumptions C05_add_algebra_is_vector_add. Print Assumptions C05_exp_neg_is_inverse. Print Assumptions C05_Jr_zero. Print Assumptions C05_Jr_is_Jl_neg_partial.
+Print Assumptions C05_adj_identity_SE3. Print Assumptions C05_adjT_identity_SE3. Print Assumptions C05_adj_identity_SE3_taylor_partial. Print Assumptions C05_adj_identity_Sim3. Print Assumptions C05_adjT_identity_Sim3. Print Assumptions C05_exp_neg_is_inverse_rxso3. Print Assumptions C05_exp_neg_is_inverse_se3. Print Assumptions C05_exp_neg_is_inverse_sim3. Print Assumptions C05_Jr_small_is_identity. Print Assumptions C05_Jr_is_Jl_neg_everywhere_refuted. Print Assumptions C05_jinvp_as_coded. Print Assumptions C05_Jl_Jl_inv_so3. Print Assumptions C05_jinvp_inverts_Jl_SO3. Print Assumptions C05_jinvp_inverts_Jl_SE3. Print Assumptions C05_jinvp_inverts_Jl_RxSO3.
